@@ -13,10 +13,18 @@ pub enum TokenizationError {
 }
 
 impl TokenizationError {
-    pub fn string_range(&self, string_length: usize) -> Range<usize> {
+    /// Returns the range, as string indices, of the given line that the error applies to.
+    pub fn string_range(&self, line: &str) -> Range<usize> {
         match &self {
-            TokenizationError::IllegalCharacter(i) => *i..*i + 1,
-            TokenizationError::UnterminatedStringLiteral(i) => *i..string_length,
+            TokenizationError::IllegalCharacter(i) => {
+                // The illegal character may be more than one byte long.
+                let char_length = line
+                    .get(*i..)
+                    .and_then(|rest| rest.chars().next())
+                    .map_or(1, char::len_utf8);
+                *i..*i + char_length
+            }
+            TokenizationError::UnterminatedStringLiteral(i) => *i..line.len(),
             TokenizationError::InvalidNumber(range) => range.clone(),
         }
     }
